@@ -371,7 +371,7 @@ mod verif_c01_walker {
         kani::cover!(true, "c09_create_next_table_unused_alloc_ok: reachable");
     }
 
-    // Existing entry: PRESENT, not huge.
+    // Existing entry: non-zero, not huge.
     //@ obligation C01 C01.create_next_table.existing_entry_flags_added_not_replaced
     //@ obligation C01 C01.create_next_table.existing_entry_returns_its_table
     //@ obligation C09 C09.create_next_table.no_request_when_entry_exists
@@ -384,9 +384,13 @@ mod verif_c01_walker {
         let mut tb = PageTable::new();
         let (st, map) = prefill(&mut ta, &mut tb);
         let w: u64 = kani::any();
-        kani::assume(w & P != 0 && w & PS == 0);
-        let mut entry = entry_from(w);
         let flags = any_parent_flags();
+        // "exists" is the crate's notion (`!is_unused()`: any non-zero word), not only PRESENT
+        // words: `set_flags_pN_entry` can clear PRESENT on a linked table (seed C09-r3m3). The
+        // word must be present once the parent flags are added (else the call panics: "entry
+        // should be mapped at this point", outside the documented states).
+        kani::assume(w != 0 && w & PS == 0 && (w | flags.bits()) & P != 0);
+        let mut entry = entry_from(w);
         let ans: Option<u64> = if kani::any() { Some(any_frame_addr()) } else { None };
         let mut alloc = OneAlloc {
             answer: ans.map(|a| PhysFrame::from_start_address(PhysAddr::new(a)).unwrap()),
@@ -436,7 +440,7 @@ mod verif_c01_walker {
         let mut tb = PageTable::new();
         let (st, map) = prefill(&mut ta, &mut tb);
         let w: u64 = kani::any();
-        kani::assume(w & P != 0 && w & PS != 0);
+        kani::assume(w & PS != 0); // PRESENT or not: the word is not zero
         let mut entry = entry_from(w);
         let flags = any_parent_flags();
         let mut alloc = OneAlloc { answer: None, calls: 0 };
